@@ -134,6 +134,10 @@ def gen_case(case_seed, cfg):
             if rx["type"] != "massaction" and rm.consumption(rx):
                 rx["products"] = list(rx["reactants"])      # make it a pure catalyst (net zero)
     case["observers"] = add_rules(r, case["model"], case["grid"], det=(mode == "det"))
+    if any(ru["target"] in case["model"]["params"] for ru in case["model"]["rules"]) or mode in ("det", "lineage"):
+        case["prelude"] = None     # a rule that assigns a parameter makes the outcome depend on earlier simulations (C08's caveat)
+    elif case.get("prelude") == "det":
+        case["prelude"] = "ssa"
     if mode == "det" and r.random() < 0.5:
         case["metamorphic"] = True
     return case
